@@ -2,8 +2,9 @@
 
     - the map laws of [lookup]/[put]/[remove]/[invalidate_table] and the invariant "at most one binding
       per key";
-    - capacity: [size <= max cap 1] in every reachable state ([insert_size_bound]); the literal claim
-      [size <= cap] is false for [cap = 0] ([size_le_cap_refuted]) and true for [cap >= 1];
+    - capacity: [size <= cap] in every reachable state, for every capacity a [usize] can hold
+      ([insert_size_le_cap], [run_size_bound]); a cache of capacity 0 stores nothing
+      ([capacity_zero_holds_nothing]; before the repair of query_result_cache.rs it held one entry);
     - no foreign result: what [get] returns for a key after an [insert] is either the value just
       inserted under that very key or what [get] returned before ([get_insert_inv]); after an
       [invalidate_table] it is what it returned before, and the entry does not mention the table;
@@ -154,15 +155,22 @@ Section CacheLaws.
   (** ** The three ways an [insert] can go *)
   Lemma insert_cases : forall cap c k e v c',
     insert cap c k e v = Some c' ->
-    (v = None /\ c' = put c k e /\ (size c < cap \/ c = [])) \/
-    (exists v', v = Some v' /\ contains c v' = true /\ cap <= size c /\ c' = put (remove v' c) k e).
+    (cap = 0 /\ v = None /\ c' = c) \/
+    (cap <> 0 /\ v = None /\ c' = put c k e /\ (size c < cap \/ c = [])) \/
+    (cap <> 0 /\ exists v', v = Some v' /\ contains c v' = true /\ cap <= size c /\ c' = put (remove v' c) k e).
   Proof.
     intros cap c k e v c' H. unfold Cache.insert in H.
-    destruct (cap <=? size c) eqn:Ecap.
-    - apply Z.leb_le in Ecap. destruct v as [v|].
-      + destruct (contains c v) eqn:Ec; [|discriminate]. inversion H. right. exists v. repeat split; assumption.
-      + destruct c as [|p c0]; cbn in H; [|discriminate]. inversion H. left. repeat split. right. reflexivity.
-    - apply Z.leb_gt in Ecap. destruct v; [discriminate|]. inversion H. left. repeat split. left. exact Ecap.
+    destruct (cap =? 0) eqn:Ez.
+    - apply Z.eqb_eq in Ez. destruct v; [discriminate|]. inversion H. left. repeat split; assumption.
+    - apply Z.eqb_neq in Ez. right.
+      destruct (cap <=? size c) eqn:Ecap.
+      + apply Z.leb_le in Ecap. destruct v as [v|].
+        * destruct (contains c v) eqn:Ec; [|discriminate]. inversion H. right. split; [exact Ez|].
+          exists v. repeat split; assumption.
+        * destruct c as [|p c0]; cbn in H; [|discriminate]. inversion H. left. repeat split; try assumption.
+          right. reflexivity.
+      + apply Z.leb_gt in Ecap. destruct v; [discriminate|]. inversion H. left. repeat split; try assumption.
+        left. exact Ecap.
   Qed.
 
   (** ** Capacity *)
@@ -170,16 +178,19 @@ Section CacheLaws.
     NoDup (keys c) -> insert cap c k e v = Some c' -> NoDup (keys c').
   Proof.
     intros cap c k e v c' Hnd H. apply insert_cases in H.
-    destruct H as [[_ [Hc _]]|[v' [_ [_ [_ Hc]]]]]; subst c'.
+    destruct H as [[_ [_ Hc]]|[[_ [_ [Hc _]]]|[_ [v' [_ [_ [_ Hc]]]]]]]; subst c'.
+    - exact Hnd.
     - apply nodup_put. exact Hnd.
     - apply nodup_put. apply nodup_remove. exact Hnd.
   Qed.
 
-  Theorem insert_size_bound : forall cap c k e v c',
-    insert cap c k e v = Some c' -> size c <= Z.max cap 1 -> size c' <= Z.max cap 1.
+  (** the size never exceeds the capacity, for every capacity a [usize] can hold *)
+  Theorem insert_size_le_cap : forall cap c k e v c',
+    0 <= cap -> insert cap c k e v = Some c' -> size c <= cap -> size c' <= cap.
   Proof.
-    intros cap c k e v c' H Hb. apply insert_cases in H. unfold Cache.size in *.
-    destruct H as [[_ [Hc Hlt]]|[v' [_ [Hcon [_ Hc]]]]]; subst c'.
+    intros cap c k e v c' Hcap H Hb. apply insert_cases in H. unfold Cache.size in *.
+    destruct H as [[_ [_ Hc]]|[[Hnz [_ [Hc Hlt]]]|[Hnz [v' [_ [Hcon [_ Hc]]]]]]]; subst c'.
+    - exact Hb.
     - pose proof (length_put_le c k e) as H2. destruct Hlt as [Hlt|Hnil].
       + lia.
       + subst c. cbn. lia.
@@ -187,11 +198,12 @@ Section CacheLaws.
       pose proof (length_put_le (remove v' c) k e) as H2. lia.
   Qed.
 
-  Corollary insert_size_le_cap : forall cap c k e v c',
-    1 <= cap -> insert cap c k e v = Some c' -> size c <= cap -> size c' <= cap.
+  (** a cache of capacity 0 stores nothing and evicts nothing *)
+  Theorem capacity_zero_holds_nothing : forall c k e v c',
+    insert 0 c k e v = Some c' -> c' = c /\ v = None.
   Proof.
-    intros cap c k e v c' Hcap H Hb.
-    pose proof (insert_size_bound cap c k e v c' H) as Hs. lia.
+    intros c k e v c' H. apply insert_cases in H.
+    destruct H as [[_ [Hv Hc]]|[[Hnz _]|[Hnz _]]]; [split; assumption|contradiction|contradiction].
   Qed.
 
   Lemma invalidate_size_le : forall c t, size (invalidate_table c t) <= size c.
@@ -200,23 +212,24 @@ Section CacheLaws.
     pose proof (length_filter_le (fun p => negb (mentions (snd p) t)) c). lia.
   Qed.
 
-  (** an eviction happens exactly when the map is at capacity and not empty *)
+  (** an eviction happens exactly when the capacity is not 0, the map is at capacity and not empty *)
   Theorem insert_evicts_iff : forall cap c k e v c',
-    insert cap c k e v = Some c' -> (v <> None <-> (cap <= size c /\ c <> [])).
+    insert cap c k e v = Some c' -> (v <> None <-> (cap <> 0 /\ cap <= size c /\ c <> [])).
   Proof.
     intros cap c k e v c' H. apply insert_cases in H.
-    destruct H as [[Hv [_ Hlt]]|[v' [Hv [Hcon [Hcap _]]]]]; subst v.
-    - split; [intro Hc; contradiction|]. intros [Hc Hne]. destruct Hlt as [Hlt|Hnil]; [lia|contradiction].
-    - split; [|intros _; discriminate]. intros _. split; [exact Hcap|].
+    destruct H as [[Hz [Hv _]]|[[Hnz [Hv [_ Hlt]]]|[Hnz [v' [Hv [Hcon [Hcap _]]]]]]]; subst v.
+    - split; [intro Hc; contradiction|]. intros [Hc _]. contradiction.
+    - split; [intro Hc; contradiction|]. intros [_ [Hc Hne]]. destruct Hlt as [Hlt|Hnil]; [lia|contradiction].
+    - split; [|intros _; discriminate]. intros _. split; [exact Hnz|]. split; [exact Hcap|].
       intro Hnil. subst c. unfold Cache.contains in Hcon. cbn in Hcon. discriminate.
   Qed.
 
   (** ** No foreign result *)
   Theorem lookup_insert_same : forall cap c k e v c',
-    insert cap c k e v = Some c' -> lookup c' k = Some e.
+    cap <> 0 -> insert cap c k e v = Some c' -> lookup c' k = Some e.
   Proof.
-    intros cap c k e v c' H. apply insert_cases in H.
-    destruct H as [[_ [Hc _]]|[v' [_ [_ [_ Hc]]]]]; subst c'; apply lookup_put_same.
+    intros cap c k e v c' Hnz H. apply insert_cases in H.
+    destruct H as [[Hz _]|[[_ [_ [Hc _]]]|[_ [v' [_ [_ [_ Hc]]]]]]]; [contradiction| |]; subst c'; apply lookup_put_same.
   Qed.
 
   (** what [insert] leaves of the old map: exactly the bindings other than [k] and the victim *)
@@ -225,7 +238,8 @@ Section CacheLaws.
     lookup c' k' = if match v with Some x => keqb x k' | None => false end then None else lookup c k'.
   Proof.
     intros cap c k e v c' k' H Hk. apply insert_cases in H.
-    destruct H as [[Hv [Hc _]]|[v' [Hv [_ [_ Hc]]]]]; subst c' v.
+    destruct H as [[_ [Hv Hc]]|[[_ [Hv [Hc _]]]|[_ [v' [Hv [_ [_ Hc]]]]]]]; subst c' v.
+    - reflexivity.
     - apply lookup_put_other. exact Hk.
     - rewrite lookup_put_other by exact Hk. destruct (keqb v' k') eqn:E.
       + apply keqb_spec in E. subst. apply lookup_remove_same.
@@ -233,22 +247,27 @@ Section CacheLaws.
   Qed.
 
   Theorem get_insert_same : forall cap c k e v c',
-    insert cap c k e v = Some c' -> get c' k = Some (e_rows e).
+    cap <> 0 -> insert cap c k e v = Some c' -> get c' k = Some (e_rows e).
   Proof.
-    intros cap c k e v c' H. unfold Cache.get. rewrite (lookup_insert_same _ _ _ _ _ _ H). reflexivity.
+    intros cap c k e v c' Hnz H. unfold Cache.get. rewrite (lookup_insert_same _ _ _ _ _ _ Hnz H). reflexivity.
   Qed.
 
+  (** what [get] returns after an insert under [k]: the rows just inserted, under [k] itself (capacity
+      not 0), or exactly what it returned before (another key, or capacity 0 where nothing is stored) *)
   Theorem get_insert_inv : forall cap c k e v c' k' r,
     insert cap c k e v = Some c' -> get c' k' = Some r ->
-    (k' = k /\ r = e_rows e) \/ (k' <> k /\ get c k' = Some r).
+    (cap <> 0 /\ k' = k /\ r = e_rows e) \/ ((k' <> k \/ cap = 0) /\ get c k' = Some r).
   Proof.
     intros cap c k e v c' k' r H Hg. unfold Cache.get in *.
-    destruct (keqb k' k) eqn:E.
-    - apply keqb_spec in E. subst. rewrite (lookup_insert_same _ _ _ _ _ _ H) in Hg. cbn in Hg.
-      inversion Hg. left. split; reflexivity.
-    - apply keqb_false_neq in E. right. split; [exact E|].
-      rewrite (lookup_insert_other _ _ _ _ _ _ _ H E) in Hg.
-      destruct (match v with Some x => keqb x k' | None => false end); [discriminate|exact Hg].
+    destruct (Z.eq_dec cap 0) as [Hz|Hnz].
+    - subst cap. destruct (capacity_zero_holds_nothing _ _ _ _ _ H) as [Hc _]. subst c'.
+      right. split; [right; reflexivity|exact Hg].
+    - destruct (keqb k' k) eqn:E.
+      + apply keqb_spec in E. subst. rewrite (lookup_insert_same _ _ _ _ _ _ Hnz H) in Hg. cbn in Hg.
+        inversion Hg. left. repeat split. exact Hnz.
+      + apply keqb_false_neq in E. right. split; [left; exact E|].
+        rewrite (lookup_insert_other _ _ _ _ _ _ _ H E) in Hg.
+        destruct (match v with Some x => keqb x k' | None => false end); [discriminate|exact Hg].
   Qed.
 
   Lemma lookup_filter : forall (f : K * entry -> bool) c k e,
@@ -370,9 +389,13 @@ Section CacheLaws.
             injection H as <- <- <-. split.
             -- split; [exact (insert_nodup _ _ _ _ _ _ Hnd Ei)|].
                intros k e Hl.
+               destruct (Z.eq_dec cap 0) as [Hz|Hnz].
+               { (* capacity 0: nothing was stored *)
+                 rewrite Hz in Ei. destruct (capacity_zero_holds_nothing _ _ _ _ _ Ei) as [Hc _].
+                 subst c1. exact (Hgood _ _ Hl). }
                destruct (keqb k (sig q)) eqn:Ek.
                ++ apply keqb_spec in Ek. subst k.
-                  rewrite (lookup_insert_same _ _ _ _ _ _ Ei) in Hl. inversion Hl. subst e.
+                  rewrite (lookup_insert_same _ _ _ _ _ _ Hnz Ei) in Hl. inversion Hl. subst e.
                   exists q. cbn. repeat split; try assumption; reflexivity.
                ++ apply keqb_false_neq in Ek.
                   rewrite (lookup_insert_other _ _ _ _ _ _ _ Ei Ek) in Hl.
@@ -442,43 +465,44 @@ Section CacheLaws.
 
     (** reachable states respect the capacity *)
     Theorem run_size_bound : forall ops d c d' c' obs,
-      size c <= Z.max cap 1 -> run (d, c) ops = Some ((d', c'), obs) -> size c' <= Z.max cap 1.
+      0 <= cap -> size c <= cap -> run (d, c) ops = Some ((d', c'), obs) -> size c' <= cap.
     Proof.
-      induction ops as [|[o v] ops IH]; intros d c d' c' obs Hs H; cbn [Cache.run] in H.
+      induction ops as [|[o v] ops IH]; intros d c d' c' obs Hcap Hs H; cbn [Cache.run] in H.
       - injection H as <- <- <-. exact Hs.
       - destruct (step (d, c) o v) as [[[d1 c1] ob]|] eqn:Es; [|discriminate].
         destruct (run (d1, c1) ops) as [[[d2 c2] obs']|] eqn:Er; [|discriminate].
-        injection H as <- <- <-. refine (IH _ _ _ _ _ _ Er). clear IH Er.
+        injection H as <- <- <-. refine (IH _ _ _ _ _ Hcap _ Er). clear IH Er.
         destruct o as [q|s]; cbn in Es.
         + destruct (get c (sig q)); [injection Es as <- <- <-; exact Hs|].
           destruct (exec d q) as [r|]; [|injection Es as <- <- <-; exact Hs].
           destruct (insert cap c (sig q) (mkEntry r (extract q)) v) as [c1'|] eqn:Ei; [|discriminate].
-          injection Es as <- <- <-. exact (insert_size_bound _ _ _ _ _ _ Ei Hs).
+          injection Es as <- <- <-. exact (insert_size_le_cap _ _ _ _ _ _ Hcap Ei Hs).
         + injection Es as <- <- <-. destruct (inval s) as [t|]; [|exact Hs].
           pose proof (invalidate_size_le c t). lia.
     Qed.
 
-    (** a miss that executes successfully is followed by a hit on any query with the same signature *)
+    (** a miss that executes successfully is followed by a hit on any query with the same signature
+        (for every capacity other than 0, where nothing is stored) *)
     Theorem hit_after_miss : forall d c q v st' r q',
+      cap <> 0 ->
       step (d, c) (Read q) v = Some (st', Miss (Some r)) -> sig q' = sig q ->
       forall v', step st' (Read q') v' = Some (st', Hit r).
     Proof.
-      intros d c q v st' r q' H Hs v'. cbn in H.
+      intros d c q v st' r q' Hnz H Hs v'. cbn in H.
       destruct (get c (sig q)); [discriminate|].
       destruct (exec d q) as [r0|]; [|discriminate].
       destruct (insert cap c (sig q) (mkEntry r0 (extract q)) v) as [c1|] eqn:Ei; [|discriminate].
-      inversion H. subst. cbn. rewrite Hs. rewrite (get_insert_same _ _ _ _ _ _ Ei). reflexivity.
+      inversion H. subst. cbn. rewrite Hs. rewrite (get_insert_same _ _ _ _ _ _ Hnz Ei). reflexivity.
     Qed.
   End Transparency.
 End CacheLaws.
 
-(** ** The literal capacity claim is false for capacity 0 *)
-Theorem size_le_cap_refuted :
-  exists (c c' : cache Z Z) (k : Z) (e : entry Z),
-    insert Z Z.eqb Z 0 c k e None = Some c' /\ size Z Z c <= 0 /\ ~ (size Z Z c' <= 0).
-Proof.
-  exists [], [(7, mkEntry 1 [])], 7, (mkEntry 1 []). split; [reflexivity|]. split; [cbn; lia|cbn; lia].
-Qed.
+(** ** Capacity 0, concretely: the insert that used to leave one entry now leaves none
+    (the former [size_le_cap_refuted] witness, turned positive by the repair of query_result_cache.rs) *)
+Example capacity_zero_example :
+  insert Z Z.eqb Z 0 [] 7 (mkEntry 1 []) None = Some [] /\
+  insert Z Z.eqb Z 0 [] 7 (mkEntry 1 []) (Some 7) = None.
+Proof. split; reflexivity. Qed.
 
 (** ** Examples: the hypotheses of the laws are satisfiable by non-trivial inputs *)
 Example insert_at_capacity_example :
